@@ -12,12 +12,21 @@ def padOpt (o : EOpt) (pad len a b : Nat) : EOpt :=
       if (len + a + b) % pad ≠ 0 then List.replicate (pad - (len + a + b) % pad) 0 else [])] }
 
 /-- with padding, the tail of `to_wire` is the unpadded tail applied to the padded OPT -/
-theorem finish_pad (r : RState) (o : EOpt) (tsig : Option Tsig) (pad a b : Nat) (hpad : pad ≠ 0) :
+theorem finish_pad (r : RState) (o : EOpt) (tsig : Option Tsig) (pad a b : Nat) (hpad : pad ≠ 0)
+    (hfit : ¬ padLen r.out.length pad a b > 65535) :
     r.finish (some o) tsig pad a b =
       ({ r with wasPadded := true } : RState).finish (some (padOpt o pad r.out.length a b)) tsig 0 a b := by
-  unfold RState.finish RState.addOpt padOpt
-  simp only [hpad, ne_eq, not_false_eq_true, if_true, not_true_eq_false, if_false]
+  have hl : r.releaseReserved.out.length = r.out.length := rfl
+  unfold RState.finish RState.addOpt RState.addOptCore padOpt
+  simp only [hl, hfit, hpad, ne_eq, not_false_eq_true, if_true, not_true_eq_false, if_false, and_false, false_and]
   rfl
+
+/-- a padding no PADDING option can carry: `TooBig` (repair 2d35a76) -/
+theorem finish_pad_guard (r : RState) (o : EOpt) (tsig : Option Tsig) (pad a b : Nat) (hpad : pad ≠ 0)
+    (hbig : padLen r.out.length pad a b > 65535) : r.finish (some o) tsig pad a b = .error .tooBig := by
+  have hl : r.releaseReserved.out.length = r.out.length := rfl
+  unfold RState.finish RState.addOpt
+  simp only [hl, hbig, hpad, ne_eq, not_false_eq_true, and_self, if_true, stepToExcept]
 
 /-- what the parser finds in place of `Message.opt` -/
 def OptPadRel (pad : Nat) : Option EOpt → Option EOpt → Prop
@@ -110,7 +119,10 @@ theorem toWire_shape_pad (m : Message) (lim : Nat) (w : Bytes) (h : m.toWire lim
               simp only [List.length_replicate] at hq
               refine ⟨q, hq, ?_⟩
               unfold finishOut at h
-              rw [hopt, finish_pad r3 o m.tsig m.pad _ _ hpad] at h
+              rw [hopt] at h
+              by_cases hfit : padLen r3.out.length m.pad m.optReserve b > 65535
+              · rw [finish_pad_guard r3 o m.tsig m.pad _ _ hpad hfit] at h; simp at h
+              rw [finish_pad r3 o m.tsig m.pad _ _ hpad hfit] at h
               cases hf : ({ r3 with wasPadded := true } : RState).finish
                   (some (padOpt o m.pad r3.out.length m.optReserve b)) m.tsig 0 m.optReserve b with
               | error e => rw [hf] at h; simp at h
